@@ -348,7 +348,9 @@ fn check_table(c: &TableCase, st: &mut Stats) -> Outcome {
             let _ = std::fs::remove_file(dir.join(f));
         }
         if std::fs::write(&gpath, &text).is_ok() {
-            let settings = cfg.settings().force(true);
+            // for LR the setter order is immaterial (parser_algo(LR) changes nothing): half of the
+            // LR cases configure in the order of the rcomp command line (parser_algo last)
+            let settings = if !c.glr && c.ps != c.pse { cfg.settings_algo_last().force(true) } else { cfg.settings().force(true) };
             st.sub();
             match guarded(|| settings.process_grammar(&gpath)) {
                 Err(p) => {
